@@ -89,13 +89,33 @@ class ExprMixin:
             d = empty_dict(TDict(kty, vty))
         ke = self.to_elem(k, d.kty)
         ve = self.to_elem(v, d.vty)
-        has = self.seq_contains(d.keys, ke)
+        has = self.dict_has(d, ke)
         keys = z3.If(has, d.keys, z3.Concat(d.keys, z3.Unit(ke)))
         return VDict(d.kty, d.vty, keys, z3.Store(d.m, ke, ve), d.default)
 
+    def dict_has(self, d, ke):
+        """key membership.  Dicts whose values are (non-null) object references keep the representation invariant
+        `map[k] == 0 for every absent key`, so membership and .get() need no sequence reasoning."""
+        if isinstance(d.vty, TRef):
+            return z3.Select(d.m, ke) != 0
+        return self.seq_contains(d.keys, ke)
+
+    def defaultdict_get(self, d, k, st, node):
+        """d[k] on a defaultdict(Class): a missing key is inserted with a freshly constructed object.
+        The new object is allocated on both branches (harmless: unreachable if the key is present)."""
+        ke = self.to_elem(k, d.kty)
+        has = self.dict_has(d, ke)
+        ci = VClass(name=d.default)
+        newobj = self.construct(ci, [], {}, st, node)
+        val = z3.If(has, z3.Select(d.m, ke), newobj.e)
+        keys = z3.If(has, d.keys, z3.Concat(d.keys, z3.Unit(ke)))
+        nd = VDict(d.kty, d.vty, keys, z3.Store(d.m, ke, val), d.default)
+        self.assign(node.value, nd, st)
+        return elem_value(d.vty, val)
+
     def dict_get(self, d, k):
         ke = self.to_elem(k, d.kty)
-        return elem_value(d.vty, z3.Select(d.m, ke)), self.seq_contains(d.keys, ke)
+        return elem_value(d.vty, z3.Select(d.m, ke)), self.dict_has(d, ke)
 
     # ------------------------------------------------------------------ eval
     def eval(self, e, st):
@@ -298,7 +318,7 @@ class ExprMixin:
 
     def assume_wf_read(self, st, v):
         if isinstance(v, VRef):
-            st.assume(v.e >= 0)
+            st.assume(v.e >= 0 if v.nullable else v.e > 0)
             st.assume(v.e <= st.alloc)
 
     def ev_Subscript(self, e, st):
@@ -544,7 +564,7 @@ class ExprMixin:
         if isinstance(cont, VList):
             return self.seq_contains(cont.e, self.to_elem(x, cont.elem_ty))
         if isinstance(cont, VDict):
-            return self.seq_contains(cont.keys, self.to_elem(x, cont.kty))
+            return self.dict_has(cont, self.to_elem(x, cont.kty))
         if isinstance(cont, VSet):
             return z3.Select(cont.m, self.to_elem(x, cont.ety))
         if isinstance(cont, VStr) and isinstance(x, VStr):
@@ -684,7 +704,17 @@ class ExprMixin:
             e = ast.GeneratorExp(elt=call, generators=e.generators[:1])
             ast.fix_missing_locations(e)
         g = e.generators[0]
-        j = z3.Int(fresh_name("q"))
+        # bound variables are named by nesting depth, so the same contract text evaluated twice in the same state gives
+        # syntactically identical terms (no alpha-renaming for the solver to see through)
+        depth = getattr(self, "qdepth", 0)
+        j = z3.Int(f"q!d{depth}")
+        self.qdepth = depth + 1
+        try:
+            return self._quantifier_body(e, g, j, st, is_all)
+        finally:
+            self.qdepth = depth
+
+    def _quantifier_body(self, e, g, j, st, is_all):
         if (
             isinstance(g.iter, ast.Call)
             and isinstance(g.iter.func, ast.Name)
